@@ -66,13 +66,13 @@ fn docs() -> Vec<Doc> {
         e("NEW", "    rewrite:\n      source: $$$E\n      rewriters: [num, str]\n      joinBy: ' + '\n"),
         e("UP", "    convert:\n      source: $NEW\n      toCase: upperCase\n")])],
       tail: "rewriters:\n- id: num\n  rule:\n    kind: number\n  fix: n\n- id: str\n  rule:\n    kind: string\n  fix: s\nfix: baz($UP, $NEW)\n".into(), class: "" },
-    // the kinds of an `all` are cached when it is built: a utility reached only through nthChild.ofRule is not
-    // ordered before its user, so whether the rule "has kinds" depends on the registration order (known finding)
+    // the kinds of an `all` are cached when it is built: a utility reached only through nthChild.ofRule must be
+    // registered before its user (it is, since the dependency fix), else acceptance depends on the registration order
     Doc { head: "id: t5\nlanguage: TypeScript\nmessage: cached kinds\nrule:\n  matches: A\n".into(),
       maps: vec![("utils".into(), vec![
         e("A", "    all:\n      - nthChild:\n          position: 1\n          ofRule:\n            matches: B\n"),
         e("B", "    kind: number\n")])],
-      tail: "".into(), class: "util-kinds-cache-order" },
+      tail: "".into(), class: "" },
   ]
 }
 
